@@ -62,7 +62,11 @@ def lattice(name):
                 m = dict(tspan=[1, 6], period="month", vspan=list(v))
                 if f is not None:
                     m["fspan"] = list(f)
-                L.append((dict(config=[m]), span_coords(v) + span_coords(f)))
+                L.append((dict(config=[m]), span_coords(v) + span_coords(f), "one"))
+        # two overlapping members: the first fixed (with a fail span), the valid span of the second one nested
+        first = dict(tspan=[1, 12], period="month", vspan=[0, 100], fspan=[10, 90])
+        for v in nest_intervals((0, 14, 16, 20, 80, 100)):
+            L.append((dict(config=[first, dict(tspan=[1, 6], period="month", vspan=list(v))]), span_coords(v), "two"))
     elif name == "spike_test":
         for method in ("average", "differential"):
             for s in (None, 3, 2, 1, 0.5, 0):
@@ -133,7 +137,7 @@ def spaces(name, tier):
         for x in alpha.all_seqs(vals, 0, 2 + d):
             yield dict(x=list(x))
     elif name == "climatology_test":
-        xs = (4.0, 5.0, 7.0, 10.0, 12.0, 14.0, 15.0, 16.0, 18.0, 20.0, 22.0, 25.0, 26.0, NAN)
+        xs = (4.0, 5.0, 7.0, 10.0, 12.0, 14.0, 15.0, 16.0, 18.0, 20.0, 22.0, 25.0, 26.0, 85.0, 95.0, NAN)
         pts = [(t, x) for t in (0, 200) for x in xs]
         secs = lambda p: alpha.T0 + 86400 * p[0]
         yield dict(x=[p[1] for p in pts], secs=[secs(p) for p in pts], z=[5.0] * len(pts))
@@ -150,6 +154,8 @@ def spaces(name, tier):
         pos = ((0.0, 0.0), (1.0, 0.0), (0.0, 6.0), (11.0, 0.0), (NAN, 0.0), (NAN, NAN))
         for tr in alpha.all_seqs(pos, 0, 3 + d):
             yield dict(lon=[p[0] for p in tr], lat=[p[1] for p in tr], secs=alpha.regular_secs(len(tr), 3600))
+            if name == "speed_test" and len(tr) >= 2:  # a repeated timestamp
+                yield dict(lon=[p[0] for p in tr], lat=[p[1] for p in tr], secs=[alpha.T0 + 3600 * (j - (1 if j >= 1 else 0)) for j in range(len(tr))])
     elif name == "flat_line_test":
         for x in alpha.all_seqs((0.0, 1.0, 3.0, NAN), 0, 5 + d):
             yield dict(x=list(x), secs=alpha.regular_secs(len(x), 60))
